@@ -239,9 +239,9 @@ impl Mp4Track {
             let mut sample_count = 0u32;
             for traf in self.trafs.iter() {
                 if let Some(ref trun) = traf.trun {
-                    sample_count = sample_count
-                        .checked_add(trun.sample_count)
-                        .expect("attempt to sum trun sample_count with overflow");
+                    // the count is a u32 by API; saturate rather than panic on a file
+                    // whose runs claim more than u32::MAX samples
+                    sample_count = sample_count.saturating_add(trun.sample_count);
                 }
             }
             sample_count
